@@ -458,7 +458,9 @@ class PermutationSymbol(ConstantValue):
 
     def evaluate(self, x, mapping, component, index_values):
         """Evaluate."""
-        return self.__eps(component)
+        # __eps returns UFL objects (IntValue / Zero); evaluation must return a number.
+        value = self.__eps(component)
+        return 0 if isinstance(value, Zero) else int(value._value)
 
     def __getitem__(self, key):
         """Get an item."""
